@@ -192,6 +192,10 @@ Fixpoint run (c: cfg) (s: st) (es: list event) (k: nat) : (st * option nat) :=  
   | e :: r => match step c s e with Some s' => run c s' r (S k) | None => (s, Some k) end
   end.
 
+(* acceptance condition at the end of a history (a trace of the crate always ends with the drop of the operation's future):
+   no closure future is still in flight *)
+Definition settled (s: st) : bool := forallb (fun w => match snd w with WMap | WTerm => false | _ => true end) (works s).
+
 (* properties as monitors over the final acceptor state (the theorems-to-be of C13-C15) *)
 Definition max_live_ok (c: cfg) (s: st) := limit_ok c s || match c_lim c with Some l => count s <=? l | None => true end.
 
